@@ -2,7 +2,7 @@
    every proof is [exact <lemma>].  Do not weaken: tools/vcheck.py pins the
    hash of this file's statements. *)
 From Coq Require Import String List NArith Bool.
-From CKB Require Import Codec.Molecule Codec.MoleculeProofs Codec.SchemaWf gen.Schema Codec.Compact Codec.CompactProofs.
+From CKB Require Import Codec.Molecule Codec.MoleculeProofs Codec.SchemaWf gen.Schema Codec.Compact Codec.CompactProofs Codec.UnclesVerify.
 Import ListNotations.
 
 (* ---- (a) decoding: total, and bounded by the input ------------------------ *)
@@ -120,6 +120,24 @@ Theorem c16_unverified_underflow :
     (mkCB []%N [101]%N [(1%nat, (10, 100)%N); (1%nat, (12, 102)%N)] [] (fun _ => true)) [] [] = None.
 Proof. exact unverified_underflow. Qed.
 
+(* A BlockTransactions reply that passes BlockUnclesVerifier (as repaired by
+   2db54f8: as many uncles as requested indexes in range, hashes equal in order)
+   never makes reconstruct_block run out of received uncles; the verifier as it
+   was accepted an empty reply for a requested uncle, on which reconstruct_block
+   panics (F13). *)
+Theorem c16_verified_uncles_never_panic : forall (U : Type) (es : list (uentry U)) all_hashes indexes (recv : list U) (hash : U -> N),
+  given_matches es all_hashes indexes ->
+  uncles_verify true all_hashes indexes (map hash recv) = true ->
+  uncles_pass U es 0 recv <> UPanic U.
+Proof. exact @verified_uncles_never_panic. Qed.
+
+Theorem c16_uncles_verify_old_refuted :
+  uncles_verify false [7%N] [0%nat] [] = true /\
+  given_matches [@UGiven N] [7%N] [0%nat] /\
+  uncles_pass N [@UGiven N] 0 [] = UPanic N /\
+  uncles_verify true [7%N] [0%nat] [] = false.
+Proof. exact uncles_verify_old_refuted. Qed.
+
 Redirect "out/C16.c16_decode_total_and_bounded" Print Assumptions c16_decode_total_and_bounded.
 Redirect "out/C16.c16_accepted_offsets_in_range" Print Assumptions c16_accepted_offsets_in_range.
 Redirect "out/C16.c16_strict_accepts_only_canonical" Print Assumptions c16_strict_accepts_only_canonical.
@@ -134,3 +152,5 @@ Redirect "out/C16.c16_never_other_block" Print Assumptions c16_never_other_block
 Redirect "out/C16.c16_example" Print Assumptions c16_example.
 Redirect "out/C16.c16_reconstruct_header_refuted" Print Assumptions c16_reconstruct_header_refuted.
 Redirect "out/C16.c16_unverified_underflow" Print Assumptions c16_unverified_underflow.
+Redirect "out/C16.c16_verified_uncles_never_panic" Print Assumptions c16_verified_uncles_never_panic.
+Redirect "out/C16.c16_uncles_verify_old_refuted" Print Assumptions c16_uncles_verify_old_refuted.
